@@ -173,6 +173,24 @@ def expected_cmds(beh, text, offs):
     return out
 
 
+DOC_KINDS = [("set", ""), ("option", ""), ("add_test", ""), ("ct_add_test", ""), ("ct_add_section", ""), ("message", ""),
+             ("cpp_attr", None), ("cpp_member", None), ("cpp_constructor", None),
+             ("function", "\nendfunction()"), ("macro", "\nendmacro()"), ("cpp_class", "\ncpp_end_class()")]
+
+
+def documented_variant(text, cmd, n):
+    """`text` holds one command; returns the file with the command renamed to a documentable one (by rotation) and
+    a doccomment in front of it; None where that kind needs a name argument the command does not have"""
+    name, off, args = cmd
+    kind, tail = DOC_KINDS[n % len(DOC_KINDS)]
+    if kind in ("function", "macro", "cpp_class") and not (args and args[0][0] == "arg"):
+        return None
+    body = text[:off] + kind + text[off + len(name):]
+    if tail is None:     # class members live inside a class; the definition that follows implements the member
+        return "cpp_class(K)\n#[[[\n# doc\n#]]\n" + body + "\nfunction(x)\nendfunction()\ncpp_end_class()\n"
+    return "#[[[\n# doc\n#]]\n" + body + tail + "\n"
+
+
 def _chunk(args):
     pid, chunk, seed = args
     out = []
@@ -192,6 +210,16 @@ def _chunk(args):
                 pexc, perr, _ = run_pipeline(text)
                 if pexc is not None:
                     r["viol"] = ("Documenter.process() completes", pexc, "the pipeline raises on a valid file")
+                elif pid == "C05" and len(want) == 1:
+                    # the same argument list on a documentable command carrying a doccomment (one kind per file, in
+                    # rotation): whatever a processor does with the arguments, a valid file is processed to completion
+                    vtext = documented_variant(text, want[0], n)
+                    if vtext is not None:
+                        vexc, _, _ = run_pipeline(vtext)
+                        if vexc is not None:
+                            r["text"] = vtext
+                            r["viol"] = ("Documenter.process() completes", vexc,
+                                         "the pipeline raises on a valid file (documented command with these arguments)")
             toks, errs = real_lex(text)
             mtoks = [[t["k"], offs[t["from"] - 1], offs[t["to"]] - 1] for t in beh["toks"]]
             if toks != mtoks or bool(errs) != bool(beh["lexerrs"]):
